@@ -310,7 +310,8 @@ Lemma frameL_global_id n : frameL (global_id n).
 Proof.
   unfold global_id. apply frameL_bind; [apply frameL_handle_from_bytes|]. intros h s.
   destruct (nm_find h (cs_ids s)); [|destruct (ht_entry_hangs (cs_ids s)); [exact I|]];
-    (destruct (nm_find _ (cs_names s)); [cbn; sameL_tac|];
+    (destruct (nm_find _ (cs_names s));
+     [unfold name_checked; destruct (global_name_checked && negb (str_eqb _ _)); cbn; [exact I | sameL_tac]|];
      destruct (ht_entry_hangs (cs_names s)); cbn; [exact I | sameL_tac]).
 Qed.
 Lemma frameL_resolve_function n : frameL (resolve_function n).
